@@ -303,8 +303,9 @@ Definition expand (intx : bool) (op : pyop) : list sql :=
 
 Record ucfg := mkU {
   u_latest : Z;                          (* LATEST_DB_VERSION *)
+  u_fresh : list pyop;                   (* check_database for a file without a version (first open: creation) *)
   u_upgrades : list (Z * list pyop);     (* check_database: what is run for a file of version v, before ... *)
-  u_tail : list pyop;                    (* ... what is run for every file (schema script, commit) *)
+  u_tail : list pyop;                    (* ... what is run for every versioned file (for a current one: only this) *)
   u_inserts : list (bool * Z)            (* insert functions: (OR IGNORE, table) *)
 }.
 
@@ -362,14 +363,14 @@ Variable cfg : ucfg.
 Definition upgrades_from (v : Z) : list pyop :=
   flat_map (fun p => if (v <=? fst p) && (fst p <? u_latest cfg) then snd p else []) (u_upgrades cfg).
 
-(* Database.open(): _prepare_version reads the version (a missing table or row is 0 = not versioned yet, which
-   check_database takes for the current version), then check_database *)
+(* Database.open(): _prepare_version reads the version (a missing table or row is 0 = not versioned yet), then
+   check_database *)
 Definition xopen (c : conn) : list conn * conn * xout :=
   match ver (c_view c) with
   | None => ([], c, OUnknown)
-  | Some v0 =>
-      let v := if v0 =? 0 then u_latest cfg else v0 in
-      if (v <? 1) || (u_latest cfg <? v) then ([], c, OUnknown)
+  | Some v =>
+      if v =? 0 then run_prog c (u_fresh cfg)
+      else if (v <? 1) || (u_latest cfg <? v) then ([], c, OUnknown)
       else run_prog c (upgrades_from v ++ u_tail cfg)
   end.
 
